@@ -1999,6 +1999,9 @@ class Engine:
         site = self.call_site_id(node, con.target)
         if con.call is not None:
             return con.call(self, con, vals, site)
+        if not con.observer and any(isinstance(v, ObjV) and v.model is not None for v in vals.values()):
+            raise Unsupported(f"modular use of {con.target} on model objects needs an exact call hook "
+                              "(or observer=True if it modifies nothing)")
         pre = self.views(vals)
         base = f"{self.c.target}[{self.case_label}]/call:{site}"
         if con.requires is not None:
